@@ -336,6 +336,38 @@ PARSE_ORACLE = {
 }
 
 
+LISTED = {"acme_common::crypto::key_type::KeyType": ["rsa2048", "rsa4096", "ecdsa-p256", "ecdsa-p384", "ecdsa-p521", "ed25519", "ed448"],
+          "acme_common::crypto::BaseHashFunction": ["sha256", "sha384", "sha512"]}
+
+
+def listed_values_rule(ctx, rid, only=None):
+    """`list_possible_values()` (tacd's command-line whitelist) EVALUATED: the listed spellings are the documented ones and every one of
+    them is accepted by FromStr for the like-named variant — a typo in the list makes a key type unusable from the command line"""
+    from ..absint import Val, run, vstr
+    prog = ctx.prog
+    for adt, want in LISTED.items():
+        if only and adt not in only:
+            continue
+        lb = prog.body(adt + "::list_possible_values")
+        fb = prog.body("<%s as core::str::traits::FromStr>::from_str" % adt)
+        if lb is None or fb is None:
+            continue
+        try:
+            r = run(lb, {}, None, max_steps=20000)
+        except Exception:
+            continue
+        rv = r.ret.deref() if r.kind == "return" and r.ret is not None else None
+        if rv is None or rv.k != "list" or not all(x.deref().k == "str" for x in rv.v):
+            continue
+        got = [x.deref().v for x in rv.v]
+        ctx.require(rid, sorted(got) == sorted(want), "%s:%s" % (lb.file, lb.line), "%s::list_possible_values() = %s (documented: %s)" % (adt.rsplit("::", 1)[1], got, want), [adt, "listed-values"])
+        for name in got:
+            r2 = run(fb, {1: Val("ref", vstr(name))}, None, max_steps=20000)
+            rv2 = r2.ret.deref() if r2.kind == "return" and r2.ret is not None else None
+            okv = rv2 is not None and rv2.k == "adt" and rv2.extra and rv2.extra[1] == "Ok"
+            ctx.require(rid, okv, "%s:%s" % (lb.file, lb.line), "the listed value `%s` is accepted by %s::from_str" % (name, adt.rsplit("::", 1)[1]), [adt, "listed-parses", name])
+
+
 def parse_tables(ctx, rid, only=None):
     """FromStr of the key-type / digest / signature-algorithm names, EVALUATED for every documented spelling (and a few that must
     be refused): the name on the command line or in the configuration selects the like-named variant"""
